@@ -5,6 +5,7 @@ import (
 	"encoding/json"
 	"fmt"
 	"github.com/cedar-policy/cedar-go/internal/mapset"
+	"github.com/cedar-policy/cedar-go/verif/c13"
 	"sort"
 	"strings"
 
@@ -920,9 +921,9 @@ func Check() *core.Check {
 		Assumptions: []string{"the reference equality is structural and type-distinguishing (Cedar ==)"},
 		Families: func(tier string) []*core.Family {
 			if tier == "thorough" {
-				return []*core.Family{closureFamily(), recordFamily(), setFamily(6), pairFamily(3), largeFamily(), mapsetFamily(), immutability(7)}
+				return []*core.Family{closureFamily(), recordFamily(), setFamily(6), pairFamily(3), largeFamily(), mapsetFamily(), c13.UsedReceivers(), immutability(7)}
 			}
-			return []*core.Family{closureFamily(), recordFamily(), setFamily(5), pairFamily(2), largeFamily(), mapsetFamily(), immutability(5)}
+			return []*core.Family{closureFamily(), recordFamily(), setFamily(5), pairFamily(2), largeFamily(), mapsetFamily(), c13.UsedReceivers(), immutability(5)}
 		},
 	}
 }
